@@ -43,6 +43,8 @@ def cases(tier):
     out.append({"name": "g1_s1s1", "glens": [1], "slens": [1, 1]})
     out.append({"name": "reopen_with_groups_reordered", "glens": [1, 1], "slens": [1, 1], "reopen": True})
     out.append({"name": "g2_s1s2", "glens": [2], "slens": [1, 2]})
+    # option combination: the aggregator's log_times flag and whether the results carry a computation time vary independently
+    out.append({"name": "times_option_combination", "glens": [1, 1], "slens": [1], "times": True})
     if tier == "thorough":
         out.append({"name": "g111_s1", "glens": [1, 1, 1], "slens": [1]})
     # the REAL evaluator behind the aggregator: every value its result reports has a column and is read back, whatever other evaluator was
@@ -99,7 +101,7 @@ def _run_evaluator_case(case):
         except EngineSignal:
             raise
         except Exception as e:
-            h.fail("write_and_load_complete", detail="%s: %s" % (type(e).__name__, str(e)[:160]))
+            h.fail("write_and_load_complete", detail="%s: %s" % (type(e).__name__, _estr(e)))
             return
         h.note_nontrivial(op)
         h.note_nontrivial("global:" + op)
@@ -111,7 +113,7 @@ def _run_evaluator_case(case):
             except EngineSignal:
                 raise
             except Exception as e:
-                h.fail("every_reported_value_has_a_column", detail={"key": k, "error": "%s: %s" % (type(e).__name__, str(e)[:100])})
+                h.fail("every_reported_value_has_a_column", detail={"key": k, "error": "%s: %s" % (type(e).__name__, _estr(e))})
                 continue
             fin = not (isinstance(v, float) and (v != v or v in (float("inf"), float("-inf"))))
             if fin:
@@ -155,7 +157,10 @@ def run_case(case):
         for (s, g, m), v in val.items():
             k = KINDS[jsonable(kind[(s, g)], mo)] if m == 0 else "finite"
             cells["%d,%d,%d" % (s, g, m)] = {"kind": k, "value": jsonable(v, mo)}
-        return {"groups": gn, "subjects": sn, "metrics": METRIC_KEYS, "cells": cells, "reopen": bool(case.get("reopen"))}
+        d = {"groups": gn, "subjects": sn, "metrics": METRIC_KEYS, "cells": cells, "reopen": bool(case.get("reopen"))}
+        if case.get("times"):
+            d["log_times"], d["has_time"] = bool(jsonable(z3.Bool("log_times"), mo)), bool(jsonable(z3.Bool("has_time"), mo))
+        return d
     h = H(PROP, case["name"], decode, replay_kind="roundtrip", max_witnesses=25)
 
     class FakeResult:
@@ -176,6 +181,10 @@ def run_case(case):
             k = KINDS[ENG.concretize(kind[(s, g)], 0, 3)] if m == 0 else "finite"
             cell[(s, g, m)] = {"finite": SNum(v, "float64"), "nan": float("nan"), "inf": float("inf"), "missing": None}[k], k
         cur = {"s": 0}
+        opts = {}
+        if case.get("times"):
+            opts["log_times"] = bool(SBool(z3.Bool("log_times")))
+            opts["has_time"] = bool(SBool(z3.Bool("has_time")))
 
         class Ev:
             segmentation_class_groups_names = list(gnames)
@@ -190,11 +199,14 @@ def run_case(case):
                         v, k = cell[(s, g, m)]
                         if k != "missing":
                             d[key] = v
-                    out.append((gnames[g], (FakeResult(d), None)))
+                    fr = FakeResult(d)
+                    if opts.get("has_time"):
+                        fr.computation_time = 1.5
+                    out.append((gnames[g], (fr, None)))
                 return _AssocDict(out)
         interesting = any(isinstance(n, SStr) for n in gnames + snames)
         try:
-            agg = PA.Panoptica_Aggregator(Ev(), "/out/results.tsv")
+            agg = PA.Panoptica_Aggregator(Ev(), "/out/results.tsv", **({"log_times": opts["log_times"]} if case.get("times") else {}))
             for s in range(S):
                 if case.get("reopen") and s == S - 1:
                     # a later session on the same file whose evaluator lists the same groups in reverse order: it either refuses the file
@@ -215,7 +227,7 @@ def run_case(case):
         except EngineSignal:
             raise
         except Exception as e:
-            h.fail("write_and_load_complete", detail="%s: %s" % (type(e).__name__, str(e)[:120]))
+            h.fail("write_and_load_complete", detail="%s: %s" % (type(e).__name__, _estr(e)))
             return
         h.note_nontrivial(tuple(k for (_, k) in cell.values()))
         for s in range(S):
@@ -224,7 +236,7 @@ def run_case(case):
             except EngineSignal:
                 raise
             except Exception as e:
-                h.fail("subject_found", detail="%s: %s" % (type(e).__name__, str(e)[:120]))
+                h.fail("subject_found", detail="%s: %s" % (type(e).__name__, _estr(e)))
                 continue
             for g in range(G):
                 row = _lookup(one, gnames[g])
@@ -245,6 +257,13 @@ def run_case(case):
 
 
 _MISSING = object()
+
+
+def _estr(e):
+    try:
+        return str(e)[:160]
+    except TypeError:
+        return "<message with a symbolic string>"
 
 
 class _AssocDict:
@@ -283,7 +302,7 @@ def _lookup(d, key, default=None):
 
 
 # ================================================================================================ real-package side
-def _real_roundtrip(groups, subjects, metrics, cells, scale=None, reopen=False):
+def _real_roundtrip(groups, subjects, metrics, cells, scale=None, reopen=False, log_times=None, has_time=False):
     import math
     import os
     import shutil
@@ -299,7 +318,7 @@ def _real_roundtrip(groups, subjects, metrics, cells, scale=None, reopen=False):
 
     class Res:
         def __init__(self, d):
-            self._d, self.computation_time = d, None
+            self._d, self.computation_time = d, (1.5 if has_time else None)
 
         def to_dict(self):
             return dict(self._d)
@@ -324,7 +343,7 @@ def _real_roundtrip(groups, subjects, metrics, cells, scale=None, reopen=False):
     tmp = tempfile.mkdtemp(prefix="pv_c18_")
     try:
         ev = Ev()
-        agg = Panoptica_Aggregator(ev, os.path.join(tmp, "results.tsv"))
+        agg = Panoptica_Aggregator(ev, os.path.join(tmp, "results.tsv"), **({} if log_times is None else {"log_times": log_times}))
         for s, sn in enumerate(subjects):
             if reopen and s == len(subjects) - 1:
                 class Ev2(Ev):
@@ -366,8 +385,9 @@ def _real_roundtrip(groups, subjects, metrics, cells, scale=None, reopen=False):
 
 
 def real_roundtrip(case, mode, expect):
-    bad = _real_roundtrip(case["groups"], case["subjects"], case["metrics"], case["cells"], reopen=case.get("reopen", False))
-    if bad is None and not case.get("reopen"):
+    bad = _real_roundtrip(case["groups"], case["subjects"], case["metrics"], case["cells"], reopen=case.get("reopen", False),
+                          log_times=case.get("log_times"), has_time=bool(case.get("has_time")))
+    if bad is None and not case.get("reopen") and "log_times" not in case:
         # trusted text layer: the same table with magnitudes that print in exponent notation
         for sc in (1e-5, 1e17, 1 / 3):
             bad = _real_roundtrip(case["groups"], case["subjects"], case["metrics"], case["cells"], scale=sc)
@@ -420,7 +440,7 @@ def real_evaluator(case, mode, expect):
                 bad = "finite_value_recovered_exactly: after %s %s written %r, read %r" % (op, k, v, got)
                 break
     except Exception as e:
-        bad = "write_and_load_complete: %s: %s" % (type(e).__name__, str(e)[:160])
+        bad = "write_and_load_complete: %s: %s" % (type(e).__name__, _estr(e))
     finally:
         shutil.rmtree(tmp, ignore_errors=True)
         try:
